@@ -985,8 +985,23 @@ MODELLED_CANON = {'ascii', 'iso8859-1', 'utf-8', 'utf-8-sig', 'utf-16', 'utf-16-
 _ENC_RE = _re.compile(rb'encoding=([^\s,]+)')
 
 
+_CATALOGUE = None
+
+
+def catalogue_spellings():
+    global _CATALOGUE
+    if _CATALOGUE is None:
+        import sys
+        sys.path.insert(0, lib.VERIF + '/gen')
+        import gen_codecs
+        _CATALOGUE = {r['spelling'] for r in gen_codecs.catalogue()}
+    return _CATALOGUE
+
+
 def in_modelled_universe(data):
-    """False if the bytes mention a codec CPython can use and the model does not execute (case is discarded)."""
+    """False if the bytes mention a codec CPython can use and the model does not execute, or a spelling CPython
+    resolves (it normalises case/punctuation, e.g. 'utf-') that is not in the generated catalogue: such cases are
+    discarded (counted in the evidence); the error-contract oracle still runs on the implementation."""
     import codecs
     for m in _ENC_RE.finditer(data):
         try:
@@ -994,7 +1009,7 @@ def in_modelled_universe(data):
             info = codecs.lookup(name)
         except (LookupError, UnicodeDecodeError, ValueError):
             continue
-        if info.name not in MODELLED_CANON:
+        if info.name not in MODELLED_CANON or name not in catalogue_spellings():
             return False
     return True
 
